@@ -63,9 +63,7 @@ def install(E):
     reg('Assert', vassert)
     def vreach(e, a):
         r = e.stats['reached']; r[a[0].c] = r.get(a[0].c, 0) + 1
-        if len(e.stats['samples']) < 3 and r[a[0].c] == 1:
-            ok, m = e.check(full=True)
-            if ok: e.stats['samples'].append(dict(reached=a[0].c, inputs=e.script(m)))
+        e.P.g.setdefault('reached', []).append(a[0].c)
         return None
     reg('Reach', vreach)
     reg('And', lambda e, a: e.band(*slist(a[0])))
